@@ -3,6 +3,7 @@ import itertools
 import base64
 import datetime as dt
 import math
+import os
 import re
 
 from fsx import core
@@ -180,6 +181,8 @@ def gen(tier):
     for oi in range(len(ENTRY_OUTER)):
         for inner in ENTRY_INNER:
             yield {'k': 'entryfn', 'outer': oi, 'inner': inner, 'fn': 'function-of-entry-reading-function'}
+    # the date functions on a modified column whose year has more than four digits or a sign (tmpfs only)
+    yield {'k': 'faryears', 'expr': 'year(modified)', 'fn': 'date-part-of-far-year'}
     yield {'k': 'daterows', 'expr': 'year(name)', 'fn': 'date-rows'}
     yield {'k': 'daterows', 'expr': 'month(name)', 'fn': 'date-rows'}
     yield {'k': 'daterows', 'expr': 'day(name)', 'fn': 'date-rows'}
@@ -416,6 +419,50 @@ def eval_group(env, group, tier):
                         viol(c['fn'], {'query': q2, 'row': bad[0][0], 'column': bad[0][1], 'got': bad[0][2], 'alone': bad[0][3]})
                     else:
                         r.update(status='ok', sig=tuple(rows_[0][1:]))
+            elif k == 'faryears':
+                import subprocess
+                import tempfile
+                if not (os.path.isdir('/dev/shm') and os.access('/dev/shm', os.W_OK)):
+                    r.update(status='ok', sig=('no-tmpfs',), nt=False)
+                    outs.append(r)
+                    continue
+                shm = tempfile.mkdtemp(prefix='fsx-c16-', dir='/dev/shm')
+                try:
+                    stamps = {'y12025': 317309313600, 'y10000': 253402300800, 'y9999': 253402300799, 'bce1199': -100000000000, 'y2025': 1750000000, 'y0001': -62135596800 + 86400 * 40}
+                    for n, ts in stamps.items():
+                        open(os.path.join(shm, n), 'w').close()
+                        os.utime(os.path.join(shm, n), (ts, ts))
+                    if int(os.lstat(os.path.join(shm, 'y12025')).st_mtime) != 317309313600:
+                        r.update(status='ok', sig=('no-far-stamps',), nt=False)
+                    else:
+                        def civil(z):       # days since 1970-01-01 -> (year, month, day), proleptic Gregorian
+                            z += 719468
+                            era = z // 146097
+                            doe = z - era * 146097
+                            yoe = (doe - doe // 1460 + doe // 36524 - doe // 146096) // 365
+                            y = yoe + era * 400
+                            doy = doe - (365 * yoe + yoe // 4 - yoe // 100)
+                            mp = (5 * doy + 2) // 153
+                            d = doy - (153 * mp + 2) // 5 + 1
+                            m = mp + 3 if mp < 10 else mp - 9
+                            return (y + 1 if m <= 2 else y), m, d
+                        q2 = 'name, year(modified), month(modified), day(modified), dow(modified), modified from . into list'
+                        o = env.run([q2], cwd=shm, env={'TZ': 'UTC'})
+                        rows_ = o.rows(6) or []
+                        bad = []
+                        for row in rows_:
+                            days = stamps[row[0]] // 86400
+                            y, m, d = civil(days)
+                            dow = (days + 4) % 7 + 1       # 1970-01-01 was a Thursday; Sunday = 1
+                            want = [str(y), str(m), str(d), str(dow)]
+                            if list(row[1:5]) != want:
+                                bad.append((row, want))
+                        if o.rc != 0 or o.err or len(rows_) != len(stamps) or bad:
+                            viol(c['fn'], {'query': q2, 'row': bad[0][0] if bad else None, 'expected': bad[0][1] if bad else None, 'err': o.brief()['err']})
+                        else:
+                            r.update(status='ok', sig=('far', len(rows_)))
+                finally:
+                    subprocess.run(['rm', '-rf', shm])
             elif k == 'entryfn':
                 tmpl, f = ENTRY_OUTER[c['outer']]
                 q2 = 'name, %s, %s from . into list' % (tmpl % c['inner'], c['inner'])
